@@ -338,6 +338,19 @@ func init() {
 					return runHandCfg(prefix, hc, vrt.Config{}, func(td *TD) []Monitor { return []Monitor{&monC10{}} })
 				}})
 			}
+			// concurrent submission at a wager turn (same scenarios as C16's game family): every schedule
+			// within the preemption bound, observation must be explainable by a sequential order
+			bound := 1
+			if tier == "thorough" {
+				bound = 2
+			}
+			for _, sc := range concScenarios(tier) {
+				if !strings.HasPrefix(sc.name, "game/") {
+					continue
+				}
+				sc := sc
+				ss = append(ss, &Suite{Name: "c10/concurrent/" + sc.name, Bound: bound, Weight: 4, Run: sc.run})
+			}
 			return ss
 		},
 	})
